@@ -242,6 +242,4 @@ pub fn run(ctx: &mut Ctx, _args: &Args) {
     }
     lap(ctx, "rangeset", t0);
 
-    ctx.sample(serde_json::json!({"kind": "exhaustive history", "example": "start A=all (inverted), B={511,1023}; ops: I511-1024 W U V -> all observers vs model after each"}));
-    ctx.sample(serde_json::json!({"kind": "codec", "example": "bytes 0d 03 31 (bf4, height 3) decode to 0..=17 with 0 unread bytes under library and specification algorithm"}));
 }
